@@ -359,6 +359,8 @@ def run_case(ctx, case):
                         ctx.fail('%s|lookup|wrong-entry' % kind, 'query %r' % q, case)
             elif got is not None:
                 ctx.fail('%s|lookup|false-hit|%s' % (kind, tag), 'query %r not in hashed part (first hashed index %d) but got %r' % (q, first, got.name), case)
+    if case.get('gnu') and case['gnu'].get('groups_ascending') is False:
+        ctx.count('gnu.bucket-groups-not-ascending')
     ctx.count('tab.%s' % {2: 'symtab', 11: 'dynsym'}.get(case['tabtype'], 'ldynsym'))
     ctx.count('cell.%d%s' % (cls, 'le' if case['le'] else 'be'))
     ctx.case((data, queries), nt, {'cls': cls, 'le': case['le'], 'nsyms': n, 'names': [s['name'] for s in syms[:8]],
@@ -382,9 +384,13 @@ def build_case(ch, tier, n=None):
         nbuckets = ch.choice([1, 1, 2, 3, 7, ch.int(1, 64)])
         # hashed part must be sorted by bucket
         head, tail = names[:symoffset], names[symoffset:]
-        tail.sort(key=lambda nm: W.gnu_hash(nm.encode('utf-8')) % nbuckets)
+        # the symbols of one bucket are adjacent; the bucket groups themselves usually follow in ascending bucket order (every linker
+        # writes them so), but no consumer needs that: lookups start at buckets[b] and stop at the end-of-chain bit
+        gorder = ch.perm(list(range(nbuckets))) if nbuckets <= 64 and ch.bool(0.3) else list(range(nbuckets))
+        tail.sort(key=lambda nm: gorder[W.gnu_hash(nm.encode('utf-8')) % nbuckets])
         names = head + tail
-        gnu = {'symoffset': symoffset, 'nbuckets': nbuckets, 'bloom_size': ch.choice([1, 1, 2, 4, 8, 64]), 'bloom_shift': ch.choice([0, 1, 5, 6, 26, 31])}
+        gnu = {'symoffset': symoffset, 'nbuckets': nbuckets, 'bloom_size': ch.choice([1, 1, 2, 4, 8, 64]), 'bloom_shift': ch.choice([0, 1, 5, 6, 26, 31]),
+               'groups_ascending': gorder == list(range(nbuckets))}
     syms = []
     xindex = False
     for i, nm in enumerate(names):
@@ -481,5 +487,5 @@ def floors(ctx):
     need = ['gnu.query.present.full-hash-collision', 'gnu.query.present.hash-equal-up-to-bit0', 'gnu.query.absent.full-hash-collision',
             'gnu.query.absent.hash-equal-up-to-bit0', 'sysv.query.present.full-hash-collision', 'sysv.query.absent.full-hash-collision',
             'gnu.query.present.same-bucket', 'sysv.query.absent.same-bucket', 'xindex.symbol', 'syminfo.table', 'tab.symtab', 'tab.dynsym', 'tab.ldynsym',
-            'cell.32le', 'cell.32be', 'cell.64le', 'cell.64be', 'far.tables']
+            'cell.32le', 'cell.32be', 'cell.64le', 'cell.64be', 'far.tables', 'gnu.bucket-groups-not-ascending', 'symtab.stepwise']
     return ['no case of class ' + k for k in need if c[k] == 0]
